@@ -1,6 +1,6 @@
 (* C12 -- extraction of the DPE model to ocaml/dpe.ml (driver: ocaml/dpe_driver.ml) *)
 Require Import ExtrOcamlBasic ExtrOcamlNativeString.
-Require Import MPSV.Dpe.DpeDefs MPSV.Dpe.DpeModel.
+Require Import MPSV.Dpe.DpeDefs MPSV.Dpe.DpeModel MPSV.Dpe.DpeModel2.
 Extraction "../ocaml/dpe.ml"
   of_bits to_bits wrap64 wrap32
   rdpe_norm rdpe_set_d rdpe_set_2dl rdpe_get_d rdpe_get_d_old
@@ -13,4 +13,5 @@ Extraction "../ocaml/dpe.ml"
   cdpe_smod cdpe_mod cdpe_add cdpe_sub cdpe_mul cdpe_inv cdpe_sqr cdpe_sqr_eq cdpe_div cdpe_pow_si
   cdpe_mul_old cdpe_inv_old cdpe_sqr_old cdpe_sqr_eq_old cdpe_div_old cdpe_pow_si_old
   rdpe_add_d rdpe_sub_d rdpe_add_eq_d rdpe_sub_eq_d cdpe_neg cdpe_con cdpe_rot cdpe_flip cdpe_add_eq cdpe_sub_eq cdpe_set_2dl cdpe_mul_x cdpe_div_eq cdpe_div_eq_old cdpe_eq_zero cdpe_eq cdpe_ne
-  cdpe_mul_e cdpe_div_e cdpe_mul_d cdpe_div_d cdpe_set_d cdpe_get_d cdpe_get_d_old.
+  cdpe_mul_e cdpe_div_e cdpe_mul_d cdpe_div_d cdpe_set_d cdpe_get_d cdpe_get_d_old
+  rdpe_mul_d_fix rdpe_mul_eq_d_fix rdpe_div_d_fix cdpe_mul_d_fix cdpe_div_d_fix cdpe_mul_x_fix.
